@@ -23,6 +23,7 @@ RULE = ('cases = a closed path (polygons convex / concave / self-intersecting, b
         'ellipses of two arcs; mixed) with (a) its area and the metamorphic relations reversed / translated / scaled, (b) query points '
         'in 1.5x the bounding box with an outside point, (c) a second path nested / disjoint / crossing for is_contained_by; distinct '
         'by spec; non-trivial if an oracle verdict was reached')
+RULE += '; axis-parallel probes; grid-aligned coordinates and a construction whose inner start is level with notch tips of the outer path'
 ASSUMPTIONS = ['vt/ref/exact.py; the winding number is accumulated over 2048 samples per segment and points closer than 1e-6*size to the path are skipped',
                'the probe precondition (transversal >= 5 degrees, >= 1e-3*size from every joint, no other approach within 1e-4*size) is decided from 2048-sample polylines',
                'arc areas: tolerance = chord approximation bound L*chord^2*kappa_max/8']
